@@ -93,6 +93,16 @@ var c42Redirs = []c42Redir{
 	{"2", ">>", false, "f1"},
 	{"1", "<", false, "f0"},
 	{"0", ">", false, "f1"},
+	// fds above 3: the port table becomes sparse (fd 5 open, 3 and 4 never opened)
+	{"4", ">", false, "f1"},
+	{"5", ">", false, "f1"},
+	{"5", ">", true, "4"},
+	{"6", ">", true, "1"},
+	{"", ">", true, "4"},
+	{"", ">", true, "5"},
+	{"", "<", true, "4"},
+	// duplicating a port onto itself
+	{"", ">", true, "1"},
 }
 
 const c42CoreN = 12
@@ -136,6 +146,8 @@ const c42PipeBytes = "q\n"
 
 var c42To2 = []c42Redir{{"", ">", true, "2"}}
 var c42To3 = []c42Redir{{"", ">", true, "3"}}
+var c42To4 = []c42Redir{{"", ">", true, "4"}}
+var c42To5 = []c42Redir{{"", ">", true, "5"}}
 
 var c42Cmds = []c42Cmd{
 	{"echo x", c42Writer, []c42Act{{c42ActEcho, "x", nil}}, "", 0},
@@ -153,6 +165,11 @@ var c42Cmds = []c42Cmd{
 	{"echo q | all", c42All, nil, "", c42PipeIn},
 	// ... and as its first form (writing into the pipe; `all` turns what arrives into values on stdout)
 	{"echo q", c42Writer, []c42Act{{c42ActEcho, "q", nil}}, " | all", c42PipeOut},
+	{"put r", c42Writer, []c42Act{{c42ActPut, "r", nil}}, " | all", c42PipeOut},
+	// inner forms duplicating from fds 4 and 5 of the enclosing form, whose
+	// redirections may or may not have opened them (and fd 3 below them)
+	{"{ echo c >&4 }", c42Writer, []c42Act{{c42ActEcho, "c", c42To4}}, "", 0},
+	{"{ echo c >&5 }", c42Writer, []c42Act{{c42ActEcho, "c", c42To5}}, "", 0},
 }
 
 // Initial scratch files ("" + absent flag). f3 and f9 do not exist.
@@ -243,6 +260,7 @@ type c42World struct {
 	// pipe) was redirected again or closed while a duplicate made with >&
 	// was still in place; per the reference the duplicate stays usable
 	dupOutlives bool
+	selfDup     bool
 }
 
 func (w *c42World) choice(bit int) bool {
@@ -343,6 +361,11 @@ func (w *c42World) redirect1(ports map[int]*c42MPort, r c42Redir) *c42Exc {
 			}
 		} else {
 			w.ev("dup-" + p.state())
+		}
+		if n == dst && (p.kind == c42File || (p.kind == c42Base && p.base >= 3)) {
+			// a file or pipe port of this form duplicated onto itself: nothing changes
+			w.selfDup = true
+			w.ev("self-dup")
 		}
 		ports[dst] = p
 		return nil
@@ -544,6 +567,7 @@ type c42Model struct {
 	hangKey     string
 	openedBy    map[string]string
 	dupOutlives bool
+	selfDup     bool
 }
 
 func c42RunModel(cmd c42Cmd, redirs []c42Redir, mask int) (c42Outcome, *c42World) {
@@ -679,6 +703,7 @@ func c42Expect(cmd c42Cmd, redirs []c42Redir) c42Model {
 			m.hangKey = w.hangKey
 			m.openedBy = w.openedBy
 			m.dupOutlives = w.dupOutlives
+			m.selfDup = w.selfDup
 		}
 		if w.unrunnable {
 			m.unrunnable = true
@@ -1416,6 +1441,9 @@ func TestVerifC42(t *testing.T) {
 				if m.dupOutlives {
 					// one documented behaviour is at stake in all of these cases
 					key = "duplicate-unusable-after-original-fd-redirected"
+				}
+				if m.selfDup {
+					key = "port-unusable-after-duplicating-onto-itself"
 				}
 				report(idx, key, fmt.Sprintf("%q: differs in %v; observed %s (exception %q); the model allows %s", src, best, c42Show([]c42Outcome{obs.c42Outcome}), obs.ExcMsg, c42Show(m.allowed)), src)
 			}
